@@ -18,7 +18,7 @@ import (
 )
 
 func c01SuffixOnPieces(c *Ctx, r *Report) {
-	r.Rule("R01.3g", "a separator is looked for in text that can hold all of it: where the text returned by (*bufio.Reader).ReadString(d) is itself tested with strings.HasSuffix / TrimSuffix against S, S is a constant in which the byte d occurs only last — a separator that is not a constant (the multi-character IRS) is looked for in the accumulated line, not in the last piece, because ReadString cuts it in two whenever its last byte also occurs earlier in it (--irs ';;')")
+	r.Rule("R01.3g", "a separator is looked for in text that can hold all of it: where the text returned by (*bufio.Reader).ReadString(d) is itself tested with strings.HasSuffix / TrimSuffix / CutSuffix against S, S is a constant in which the byte d occurs only last — a separator that is not a constant (the multi-character IRS) is looked for in the accumulated line, not in the last piece, because ReadString cuts it in two whenever its last byte also occurs earlier in it (--irs ';;')")
 	n := 0
 	for _, fn := range c.ModuleFunctions() {
 		if fn.Pkg == nil || fn.Blocks == nil {
@@ -32,7 +32,7 @@ func c01SuffixOnPieces(c *Ctx, r *Report) {
 					continue
 				}
 				cn := CalleeName(&call.Call)
-				if cn != "strings.HasSuffix" && cn != "strings.TrimSuffix" {
+				if cn != "strings.HasSuffix" && cn != "strings.TrimSuffix" && cn != "strings.CutSuffix" {
 					continue
 				}
 				ex, ok := call.Call.Args[0].(*ssa.Extract)
